@@ -217,3 +217,13 @@ package filesystem
 //@   at call keystore.NewClientIDKeyContext : assert arg[0] == keystore.PurposeStorageClientPrivateKey && sameslice(arg[1], id)
 //@   at call KeyStore.SaveKeyPairWithFilename : assert arg[0] == keypair && arg[1] == ret(GetServerDecryptionKeyFilename)[0] && arg[2] == ret(keystore.NewClientIDKeyContext)[0]
 //@   at call GetServerDecryptionKeyFilename : assert sameslice(arg[0], id)
+
+// Private key files whose permission bits exceed PrivateFileMode (0600) are refused.
+//@ func (store *KeyStore) loadPrivateKey(path string) (key *keys.PrivateKey, err error)
+//@   props C07
+//@   noinline *
+//@   ensures (err == nil) <==> (key != nil)
+//@   ensures lax-mode-refused: err == nil ==> uint32(ret(FileInfo.Mode)[0]) & 0777 <= uint32(PrivateFileMode)
+//@   ensures read-after-the-check: err == nil ==> called(Storage.ReadFile) && sameslice(key.Value, ret(Storage.ReadFile)[0])
+//@   at call Storage.Stat : assert arg[0] == path
+//@   at call Storage.ReadFile : assert arg[0] == path && ret(Storage.Stat)[1] == nil
